@@ -1,4 +1,4 @@
-"""Generator of abstract DFXP documents AS TEXT (coq/spec/SpecXmlDoc.v): element structure + every lexical choice
+"""Generator of abstract DFXP documents AS TEXT (coq/spec/SpecXmlDocT.v): element structure + every lexical choice
 (white space in tags, quote characters, attribute order, character references).  The wire form is what
 coq/extract/OrXmlDoc.v decodes (request 120); the text itself is rendered by the Coq renderer render_doc."""
 import timegen as tg
